@@ -42,18 +42,18 @@ type Tap struct {
 	lastKey  map[string][32]byte // flow -> key that last decoded
 	lastUser map[string]string
 
-	eff     map[string]*appctlpb.TrafficPattern // "s" or "c<i>" -> effective pattern
-	orig    map[string]*appctlpb.TrafficPattern
-	mtu     map[string]int
-	attack  map[string]bool // flows / conn addrs that belong to attackers (not real endpoints)
-	hostile map[string]bool
+	eff           map[string]*appctlpb.TrafficPattern // "s" or "c<i>" -> effective pattern
+	orig          map[string]*appctlpb.TrafficPattern
+	mtu           map[string]int
+	attack        map[string]bool // flows / conn addrs that belong to attackers (not real endpoints)
+	hostile       map[string]bool
 	hostileOpened int
-	replied map[string]int // bytes/datagrams sent by the server towards an attacker flow
-	kinds   map[string]int // segment kinds seen (reach)
-	geo     []spec.SegGeo
-	record  bool
-	refServer bool // the server address belongs to a reference peer, not to mieru
-	wire    map[string][]byte
+	replied       map[string]int // bytes/datagrams sent by the server towards an attacker flow
+	kinds         map[string]int // segment kinds seen (reach)
+	geo           []spec.SegGeo
+	record        bool
+	refServer     bool // the server address belongs to a reference peer, not to mieru
+	wire          map[string][]byte
 }
 
 type streamTap struct {
@@ -97,7 +97,7 @@ type sessTap struct {
 	closeSeen         [2]bool
 	dropped           [2]int
 	hsDone            bool // the first server data segment (the SOCKS reply) reached the client
-	quotaClose bool // the server sent a close request with the quota-exhausted status
+	quotaClose        bool // the server sent a close request with the quota-exhausted status
 }
 
 func newTap(w *World) *Tap {
@@ -351,7 +351,7 @@ func (t *Tap) StreamBytes(c *simnet.ConnInfo, dir simnet.Dir, off int64, b []byt
 	}
 	if err != nil && t.w.connTampered(c.ID) {
 		st.failed[dir] = true
-		t.w.probes["tap-gave-up-on-tampered-conn"]++
+		t.w.probe("tap-gave-up-on-tampered-conn")
 	} else if err != nil {
 		st.failed[dir] = true
 		cid, d, e, o := c.ID, dir, err.Error(), st.dec[dir].Offset()
@@ -370,7 +370,7 @@ func (t *Tap) StreamBytes(c *simnet.ConnInfo, dir simnet.Dir, off int64, b []byt
 func (t *Tap) onStreamSegment(st *streamTap, dir simnet.Dir, s *refproto.Segment) []func() {
 	var out []func()
 	w := t.w
-	w.checks++
+	w.checks.Add(1)
 	name := "s"
 	if dir == simnet.C2S {
 		name = fmt.Sprintf("c%d", st.client)
@@ -571,7 +571,7 @@ func (t *Tap) DatagramSent(d *simnet.Datagram) {
 	t.flowSeen[fk]++
 	name := t.senderName(d.Flow, d.Dir)
 	var todo []func()
-	w.checks++
+	w.checks.Add(1)
 	if s == nil {
 		if derr == "" {
 			_, derr = t.decodeDatagram(d.Flow, d.Data)
@@ -628,7 +628,7 @@ func (t *Tap) c13OnSend(ss *sessTap, dir int, s *refproto.Segment, d *simnet.Dat
 	opp := 1 - dir
 	if isDataAckType(m.Type) {
 		// (1) cumulative ack never ahead of what was delivered to this endpoint
-		w.checks++
+		w.checks.Add(1)
 		if m.UnAckSeq > ss.contig[opp] {
 			u, c := m.UnAckSeq, ss.contig[opp]
 			id := d.ID
@@ -641,7 +641,7 @@ func (t *Tap) c13OnSend(ss *sessTap, dir int, s *refproto.Segment, d *simnet.Dat
 		}
 	}
 	if isSeqType(m.Type) {
-		w.checks++
+		w.checks.Add(1)
 		ph := uint32(0)
 		if len(s.Payload) > 0 {
 			ph = fnv32(s.Payload)
@@ -666,7 +666,7 @@ func (t *Tap) c13OnSend(ss *sessTap, dir int, s *refproto.Segment, d *simnet.Dat
 			}
 		} else {
 			rec.count++
-			w.probes["retransmission-seen"]++
+			w.probe("retransmission-seen")
 			// (2) retransmission identical
 			if rec.typ != m.Type || rec.fragment != m.Fragment || rec.phash != ph || rec.plen != len(s.Payload) {
 				id := d.ID
@@ -710,7 +710,7 @@ func (t *Tap) DatagramDelivered(d *simnet.Datagram) {
 		if s2 == nil {
 			return
 		}
-		t.w.probes["corrupt-copy-still-valid"]++
+		t.w.probe("corrupt-copy-still-valid")
 		s = s2
 	}
 	ci := t.clientOfAddr(d.Flow)
@@ -734,9 +734,9 @@ func (t *Tap) DatagramDelivered(d *simnet.Datagram) {
 		// Close request delivered: had everything before it arrived?
 		if s.Meta.Seq > ss.contig[dir] {
 			ss.closeGap[dir] = true
-			t.w.probes["close-arrived-with-gap"]++
+			t.w.probe("close-arrived-with-gap")
 		} else {
-			t.w.probes["close-arrived-after-all-data"]++
+			t.w.probe("close-arrived-after-all-data")
 		}
 	}
 }
@@ -946,4 +946,18 @@ func (t *Tap) sawQuotaClose(rt *sessRT) bool {
 		}
 	}
 	return false
+}
+
+// sessionKeysOnConn lists the harness sessions that ride on TCP connection id.
+func (t *Tap) sessionKeysOnConn(id int) []string {
+	t.mu.Lock()
+	defer t.mu.Unlock()
+	var keys []string
+	scope := fmt.Sprintf("tcp#%d", id)
+	for _, ss := range t.sess {
+		if ss.flow == scope && ss.key != "" {
+			keys = append(keys, ss.key)
+		}
+	}
+	return keys
 }
